@@ -197,6 +197,9 @@ extern uintptr_t (*canon)(uintptr_t);
 void heap_alloc(const void *p, size_t n);
 void heap_free(const void *p, size_t n);
 bool heap_is_freed(const void *p, size_t n);
+// caller buffers with software red zones (flavour T; flavour A uses exact-size malloc and ASan)
+void *guard_malloc(size_t n);
+void guard_free(void *p);
 }
 #define SIM_READ(x) sim::hb::plain_read(&(x), sizeof(x), #x)
 #define SIM_WRITE(x) sim::hb::plain_write(&(x), sizeof(x), #x)
